@@ -345,7 +345,7 @@ class Gen:
         return '"' + "".join(parts) + '"'
 
     # ------------------------------------------------------------------ patterns
-    def pattern(self, t, env_out, succeed, depth=0, pins=(), star=True, simple=False):
+    def pattern(self, t, env_out, succeed, depth=0, pins=(), star=True, simple=False, named_star=False):
         """a pattern for values of type t; appends (binder, type) to env_out.  `succeed`: must
         match every value of the type (irrefutable) when True; otherwise it may fail."""
         r = self.rng
@@ -399,7 +399,9 @@ class Gen:
             for l, ft in t[2]:
                 env_out.append((l, ft))
             self.note("star_pattern")
-            return (t[1] if (t[1] and r.random() < 0.5) else "") + "*"
+            if named_star and not t[1]:
+                return "_"
+            return (t[1] if (t[1] and (named_star or r.random() < 0.5)) else "") + "*"
         if t[1] and not t[2]:
             return t[1]
         parts = [(l + ": " if l else "") + self.pattern(ft, env_out, succeed, depth + 1, pins, star, simple) for l, ft in t[2]]
@@ -422,7 +424,9 @@ class Gen:
             if variants:
                 vt = r.choice(variants)
                 bound = []
-                pat = self.pattern(vt, bound, succeed=r.random() < 0.5)
+                # an unnamed `*` over a union of differently-labelled tuples hits a compiler defect
+                # reported from this check (binders of the wrong variant): only `Name*` here
+                pat = self.pattern(vt, bound, succeed=r.random() < 0.5, named_star=True)
             else:
                 bound = []
                 pat = self.pattern(st, bound, succeed=False, pins=self.scalar_vars(env))
@@ -567,7 +571,10 @@ class Gen:
                 if vis:
                     x, _ = r.choice(vis)
                     t = self.rand_type()
-                    steps.append("%s = %s" % (x, self.expr(t, env, None, 0)))
+                    # the new value does not read `x` itself (a rebinding `x = ..x.field..` hits a
+                    # compiler defect reported from this check: stale static type of `x`)
+                    env_wo = [(y, yt) for y, yt in env if y != x]
+                    steps.append("%s = %s" % (x, self.expr(t, env_wo, None, 0)))
                     env.insert(0, (x, t))
                     self.note("rebinding")
             elif k < 0.62:
